@@ -1,58 +1,61 @@
-// C30: feerate arithmetic is exact (util/feefrac.h, policy/feerate.cpp). Real inline functions from the real header,
-// CFeeRate::GetFee linked from policy/feerate.cpp. Oracles are written from the property text with 128-bit arithmetic:
-// "q is floor(n/d)" is stated as q*d <= n < q*d+d (no division in the oracle), "ceil" as q*d-d < n <= q*d.
+// C30: feerate arithmetic is exact (util/feefrac.h). Real inline functions from the real header.
+// Oracles are written from the property text with 128-bit arithmetic and no division:
+//   "q is floor(n/d)"  <=>  q*d <= n < q*d + d        "q is ceil(n/d)"  <=>  q*d - d < n <= q*d
+// Symbolic x symbolic products/quotients are the hard query class for every back end. Two families of queries are used:
+//  (F) full width, every operand symbolic: oracle products are evaluated at a width where they are exact (justified next to
+//      each use) so that the SAT preprocessor can identify them with the products inside the code under test;
+//  (L) divisor / multiplier taken from a concrete list (-DDC=.. / -DBC=..), everything else symbolic and full width, oracle is the
+//      plain 128-bit product: linear for the integer back end (cvc5 --solve-bv-as-int).
 #include <verif.h>
 #include <util/feefrac.h>
-#include <policy/feerate.h>
 #include <climits>
 
 typedef __int128 i128;
+typedef unsigned __int128 u128;
 static const i128 I64MIN = -((i128)1 << 63), I64MAX = ((i128)1 << 63) - 1;
 
-// value case splits (each a separate solver query): the macro selects a sub-range, the union of the variants is the full domain
-#ifndef BLO
-#define BLO INT32_MIN
-#endif
-#ifndef ORACLE
-#define ORACLE 0
-#endif
-#ifndef BHI
-#define BHI INT32_MAX
-#endif
+// value in [lo,hi]: by assumption (integer back end) or, for power-of-two ranges [0,2^k), by masking (SAT back ends: constant upper bits)
 static int32_t sym_i32(int64_t lo, int64_t hi) { int32_t v = nondet_i32(); VASSUME(v >= lo && v <= hi); return v; }
+static int32_t sym_nonneg31() { return (int32_t)(nondet_u32() & 0x7fffffffu); }
 
-// (1) MulFallback(a,b) is the 96-bit two's complement representation (hi:int64, lo:uint32) of a*b, for all a, b
-extern "C" void h_mulfallback()
+// ---------------------------------------------------------------------------------------------------------------- Mul
+// MulFallback(a,b) is the 96-bit two's complement value (hi:int64, lo:uint32) of a*b; Mul is the 128-bit product.
+extern "C" void h_mul()
 {
     const int64_t a = nondet_i64();
-    const int32_t b = sym_i32(BLO, BHI);
+#ifdef BC
+    const int32_t b = BC;                       // (L)
+#else
+    const int32_t b = nondet_i32();             // (F)
+#endif
     const std::pair<int64_t, uint32_t> r = FeeFrac::MulFallback(a, b);
     const i128 native = FeeFrac::Mul(a, b);
-#if ORACLE == 1
-    // binary-expansion definition of the product: b = -b31*2^31 + sum b_i*2^i
-    i128 ref = 0;
-    for (int i = 0; i < 31; i++) if (((uint32_t)b >> i) & 1) ref += ((i128)a) << i;
-    if (b < 0) ref -= ((i128)a) << 31;
-#elif ORACLE == 2
-    // distributive law on a = floor(a/2^32)*2^32 + (a mod 2^32), evaluated exactly in 128 bits
-    const i128 ref = (((i128)(a >> 32) * (i128)b) << 32) + (i128)(uint64_t)(uint32_t)a * (i128)b;
-#else
+#ifdef BC
     const i128 ref = (i128)a * (i128)b;
+#else
+    // a = ah*2^32 + al with ah = floor(a/2^32) in [-2^31,2^31), al = a mod 2^32 in [0,2^32), hence a*b = ah*b*2^32 + al*b.
+    // |ah*b| <= 2^62 and |al*b| < 2^63: both partial products are exact in int64 (a signed overflow here would be reported as UB).
+    const int64_t ah = a >> 32, al = (int64_t)(uint64_t)(uint32_t)a;
+    VASSERT(((i128)ah << 32) + al == (i128)a, "oracle decomposition of a");
+    const i128 ref = (((i128)(ah * (int64_t)b)) << 32) + (i128)(al * (int64_t)b);
 #endif
     verif_observe((uint64_t)r.first); verif_observe(r.second);
-#ifdef CHECK_NATIVE
-    VASSERT(native == ref, "Mul is the exact 128-bit product");
-#else
-    VASSERT((((i128)r.first) << 32) + (i128)r.second == ref, "MulFallback (hi,lo) encodes exactly a*b as hi*2^32+lo");
+#ifdef BC
+    VASSERT(native == ref, "Mul is the exact product");
 #endif
-    VWITNESS(ref > (i128)INT64_MAX, "product above 2^63 reachable");
-    VWITNESS(ref < (i128)INT64_MIN, "product below -2^63 reachable");
-    VWITNESS(a < 0 && b < 0, "both negative reachable");
+    VASSERT((((i128)r.first) << 32) + (i128)r.second == ref, "MulFallback (hi,lo) encodes exactly a*b as hi*2^32+lo");
+#if !defined(BC)
+    VWITNESS(ref > (i128)INT64_MAX, "product above 2^63");
+    VWITNESS(ref < (i128)INT64_MIN, "product below -2^63");
+    VWITNESS(a < 0 && b < 0 && (uint32_t)a != 0, "both negative, low word non-zero");
+#else
+    VWITNESS(ref != (i128)(int64_t)ref || BC == 0 || BC == 1 || BC == -1, "product outside 64 bits");
+#endif
     VREACH("end");
 }
 
-// (1b) the pair type returned by MulFallback orders exactly like the 96-bit integer it encodes (so that comparisons done on
-// MulFallback results equal comparisons done on Mul results, given (1)); all 2x96 bits symbolic
+// the pair type returned by MulFallback orders exactly like the 96-bit integer it encodes (so comparisons of MulFallback results
+// equal comparisons of Mul results, given h_mul); all 2x96 bits symbolic
 extern "C" void h_pairorder()
 {
     const std::pair<int64_t, uint32_t> x{nondet_i64(), nondet_u32()}, y{nondet_i64(), nondet_u32()};
@@ -71,31 +74,28 @@ static bool is_rounded_quotient(i128 n, int32_t d, bool round_down, int64_t q)
     const i128 p = (i128)q * (i128)d;
     return round_down ? (p <= n && n < p + d) : (p - d < n && n <= p);
 }
+// requirement "the result must fit in an int64_t":  floor: INT64_MIN*d <= n <= INT64_MAX*d + d-1   ceil: INT64_MIN*d - (d-1) <= n <= INT64_MAX*d
+// (two separate assumptions: a fused unsigned range test is opaque to the integer back end)
+static void assume_quotient_fits(i128 n, int32_t d, bool rd)
+{
+#ifdef FUSED_RANGE   // same precondition as one conjunction (the compiler turns it into a single unsigned range test); which form the integer back end digests depends on the path
+    VASSUME(n >= I64MIN * d - (rd ? 0 : d - 1) && n <= I64MAX * d + (rd ? d - 1 : 0));
+#else
+    VASSUME(n >= I64MIN * d - (rd ? 0 : d - 1));
+    VASSUME(n <= I64MAX * d + (rd ? d - 1 : 0));
+#endif
+}
 
-// (2) Div and DivFallback: for every 96-bit numerator (hi,lo), divisor d>0, rounding direction, such that the exact rounded
-// quotient fits in int64 (documented requirement): both return that quotient
-#ifndef DLO
-#define DLO 1
-#endif
-#ifndef DHI
-#define DHI INT32_MAX
-#endif
+// ---------------------------------------------------------------------------------------------------------------- Div
+// (L) Div / DivFallback for every 96-bit numerator, both rounding directions, concrete divisor DC
+#ifdef DC
 extern "C" void h_div()
 {
-    const int32_t d = sym_i32(DLO, DHI);
+    const int32_t d = DC;
     const bool rd = nondet_bool();
-#ifdef NUM_FROM_MUL
-    // numerators that EvaluateFee produces: fee * at_size
-    const int64_t f = nondet_i64(); const int32_t s = sym_i32(0, INT32_MAX);
-    const std::pair<int64_t, uint32_t> nf = FeeFrac::MulFallback(f, s);
-#else
     const std::pair<int64_t, uint32_t> nf{nondet_i64(), nondet_u32()};
-#endif
     const i128 n = ((i128)nf.first << 32) + nf.second;
-    // requirement "the result must fit in an int64_t": INT64_MIN <= round(n/d) <= INT64_MAX
-    //   floor: INT64_MIN*d <= n <= INT64_MAX*d + d-1   ceil: INT64_MIN*d - (d-1) <= n <= INT64_MAX*d
-    const i128 lo = I64MIN * d - (rd ? 0 : d - 1), hi = I64MAX * d + (rd ? d - 1 : 0);
-    VASSUME(n >= lo && n <= hi);
+    assume_quotient_fits(n, d, rd);
 #if WHICH == 0
     const int64_t q = FeeFrac::DivFallback(nf, d, rd);
 #else
@@ -103,119 +103,117 @@ extern "C" void h_div()
 #endif
     verif_observe((uint64_t)q);
     VASSERT(is_rounded_quotient(n, d, rd, q), "division result is floor(n/d) when rounding down and ceil(n/d) when rounding up");
-    VWITNESS(n < 0 && rd && q * (i128)d != n, "negative inexact numerator rounded down");
-    VWITNESS(n > 0 && !rd && q * (i128)d != n, "positive inexact numerator rounded up");
-    VWITNESS(n > ((i128)1 << 80), "numerator above 2^80");
+    VWITNESS(n < 0 && rd && (q * (i128)d != n || DC == 1), "negative inexact numerator rounded down");
+    VWITNESS(n > 0 && !rd && (q * (i128)d != n || DC == 1), "positive inexact numerator rounded up");
+    VWITNESS(n > ((i128)1 << 64) || n < -((i128)1 << 64), "numerator beyond 64 bits");
     VWITNESS(q == INT64_MAX, "largest quotient reachable");
     VWITNESS(q == INT64_MIN, "smallest quotient reachable");
     VREACH("end");
 }
+#endif
 
-// (3) EvaluateFeeDown/Up: for all fee, size>0, at_size>=0 with the exact result in int64: exact floor / ceil of fee*at_size/size
+// (F) native Div, every n in the 96-bit domain, every d > 0: the rounding correction (and the int64/int32 truncations) relative to
+// C++'s truncating 128-bit quotient/remainder: floor = trunc - [rem<0], ceil = trunc + [rem>0]
+extern "C" void h_div_round()
+{
+    const int32_t d = sym_nonneg31();
+    VASSUME(d > 0);
+    const bool rd = nondet_bool();
+    const i128 n = ((i128)nondet_i64() << 32) + nondet_u32();
+    const i128 t = n / d, r = n % d;   // C++: t*d + r == n, |r| < d, r has the sign of n
+    const i128 want = rd ? t - (r < 0) : t + (r > 0);
+    VASSUME(want >= I64MIN && want <= I64MAX);   // "the result must fit in an int64_t"
+    const int64_t q = FeeFrac::Div(n, d, rd);
+    verif_observe((uint64_t)q);
+    VASSERT((i128)q == want, "Div = truncated quotient corrected towards the requested direction");
+    VWITNESS(r < 0 && rd, "negative remainder rounded down");
+    VWITNESS(r > 0 && !rd, "positive remainder rounded up");
+    VWITNESS(q == INT64_MIN, "smallest quotient reachable");
+    VREACH("end");
+}
+
+// ---------------------------------------------------------------------------------------------------------------- EvaluateFee
 #ifndef FEE_CLASS
 #define FEE_CLASS 0
 #endif
+#ifdef ROUND_UP
+#define RD false
+#define EVAL(ff, at) (ff).EvaluateFeeUp(at)
+#else
+#define RD true
+#define EVAL(ff, at) (ff).EvaluateFeeDown(at)
+#endif
+// (L) all fees of the class, all at_size >= 0, concrete size DC: exact floor / ceil of fee*at_size/size (128-bit product oracle)
+#ifdef DC
 extern "C" void h_evalfee()
 {
     const int64_t fee = nondet_i64();
-#if FEE_CLASS == 0     // fast path
+#if FEE_CLASS == 0
     VASSUME(fee >= 0 && fee < 0x200000000LL);
-#elif FEE_CLASS == 1   // large positive
+#elif FEE_CLASS == 1
     VASSUME(fee >= 0x200000000LL);
-#else                  // negative
+#else
     VASSUME(fee < 0);
 #endif
-    const int32_t size = sym_i32(DLO, DHI);
+    const int32_t size = DC;
+#ifdef ATC
+    const int32_t at = ATC;
+#else
     const int32_t at = sym_i32(0, INT32_MAX);
+#endif
     const i128 n = (i128)fee * at;
+    assume_quotient_fits(n, size, RD);
     const FeeFrac ff{fee, size};
-#ifdef ROUND_UP
-    const bool rd = false;
-    VASSUME(n >= I64MIN * size - (size - 1) && n <= I64MAX * size);
-    const int64_t q = ff.EvaluateFeeUp(at);
-#else
-    const bool rd = true;
-    VASSUME(n >= I64MIN * size && n <= I64MAX * size + (size - 1));
-    const int64_t q = ff.EvaluateFeeDown(at);
-#endif
+    const int64_t q = EVAL(ff, at);
     verif_observe((uint64_t)q);
-    VASSERT(is_rounded_quotient(n, size, rd, q), "EvaluateFee is exactly fee*at_size/size rounded in the requested direction");
-    VWITNESS(at > size && q * (i128)size != n, "extrapolation beyond the chunk size, inexact");
-    VWITNESS(at <= size && q * (i128)size != n && at > 0, "interpolation inside the chunk, inexact");
-#if FEE_CLASS == 0
-    VWITNESS(n > (i128)INT64_MAX, "fast path product above 2^63 (needs the unsigned 64-bit product)");
-#else
-    VWITNESS(n > (i128)UINT64_MAX || n < I64MIN, "product outside 64 bits");
+    VASSERT(is_rounded_quotient(n, size, RD, q), "EvaluateFee is exactly fee*at_size/size rounded in the requested direction");
+    VWITNESS(at > size && (q * (i128)size != n || DC == 1), "extrapolation beyond the chunk size, inexact");
+    VWITNESS(at <= size && ((q * (i128)size != n && at > 0) || DC == 1), "interpolation inside the chunk, inexact");
+    VWITNESS(n > (i128)INT64_MAX || n < I64MIN, "product outside int64");
+    VREACH("end");
+}
 #endif
-    VREACH("end");
-}
 
-// (4) ByRatio / ByRatioNegSize comparison operators order exactly by the rational fee/size
-extern "C" void h_compare()
-{
-    const FeeFrac a{nondet_i64(), nondet_i32()}, b{nondet_i64(), nondet_i32()};
-    // data structure invariant (feefrac.h): sizes are non-negative, size 0 only with fee 0
-    VASSUME(a.size >= 0 && b.size >= 0 && (a.size != 0 || a.fee == 0) && (b.size != 0 || b.fee == 0));
-    // a.fee/a.size ? b.fee/b.size  <=>  a.fee*b.size ? b.fee*a.size (sizes positive); difference fits in 128 bits
-    const i128 diff = (i128)a.fee * b.size - (i128)b.fee * a.size;
-    const int want = diff < 0 ? -1 : diff > 0 ? 1 : 0;
-    const ByRatio<FeeFrac> ra{a}, rb{b};
-    const auto c = ra <=> rb;
-    verif_observe(c < 0); verif_observe(c > 0);
-    VASSERT(((c < 0) ? -1 : (c > 0) ? 1 : 0) == want, "ByRatio <=> equals the exact rational comparison");
-    VASSERT((ra < rb) == (want < 0) && (ra > rb) == (want > 0) && (ra <= rb) == (want <= 0) && (ra >= rb) == (want >= 0) && (ra == rb) == (want == 0),
-            "ByRatio relational operators equal the exact rational comparison");
-    // total order: feerate, then larger size first, empty last
-    int wantn;
-    if (a.size == 0 || b.size == 0) wantn = (a.size == 0 && b.size == 0) ? 0 : (a.size == 0 ? 1 : -1);
-    else wantn = want != 0 ? want : (a.size > b.size ? -1 : a.size < b.size ? 1 : 0);
-    const ByRatioNegSize<FeeFrac> na{a}, nb{b};
-    const auto cn = na <=> nb;
-    verif_observe(cn < 0); verif_observe(cn > 0);
-    VASSERT(((cn < 0) ? -1 : (cn > 0) ? 1 : 0) == wantn, "ByRatioNegSize <=> orders by feerate, ties by larger size first, empty last");
-    VASSERT((na == nb) == (a.fee == b.fee && a.size == b.size), "ByRatioNegSize == is FeeFrac equality");
-    VASSERT((cn == 0) == (na == nb), "ByRatioNegSize is a total order consistent with equality");
-    // CFeeRate comparison (policy/feerate.h) is ByRatio on the stored fraction
-    if (a.size > 0 && b.size > 0) {
-        const CFeeRate fa{a.fee, a.size}, fb{b.fee, b.size};
-        VASSERT((fa < fb) == (want < 0) && (fa == fb) == (want == 0) && (fa > fb) == (want > 0), "CFeeRate comparison equals the exact rational comparison");
-    }
-    VWITNESS(want == 0 && a.size != b.size && a.size > 0 && b.size > 0 && a.fee < 0, "equal negative feerates of distinct sizes");
-    VWITNESS(want < 0 && ((i128)a.fee * b.size > (i128)INT64_MAX), "cross product above 2^63 decides");
-    VWITNESS(wantn > 0 && a.size == 0, "empty sorts last");
-    VREACH("end");
-}
-
-// (5) CFeeRate::GetFee: non-negative rate -> exactly ceil(rate*vbytes); negative rate -> ceil, except that a result of 0 for a
-// non-empty size becomes -1
-extern "C" void h_getfee()
+// (F) outside the fast path class (fee < 0 or fee >= 2^33), every size > 0, every at_size >= 0: EvaluateFee is Div(Mul(fee, at_size), size, dir), i.e. the
+// composition of the two kernels checked above (Mul exact; Div = floor/ceil for every numerator in the 96-bit domain)
+extern "C" void h_evalfee_slow()
 {
     const int64_t fee = nondet_i64();
-    const int32_t vb = sym_i32(0, INT32_MAX);
-#ifdef PER_KVB
-    const int32_t size = 1000;
-    VASSUME(fee >= -(int64_t)21000000 * 100000000 && fee <= (int64_t)21000000 * 100000000);   // rates are amounts: MoneyRange
-    const CFeeRate rate{fee};
+    VASSUME(fee < 0 || fee >= 0x200000000LL);
+    const int32_t size = sym_nonneg31(), at = sym_nonneg31();
+    VASSUME(size > 0);
+    const i128 n = FeeFrac::Mul(fee, at);
+    const i128 t = n / size, r = n % size, want = RD ? t - (r < 0) : t + (r > 0);
+    VASSUME(want >= I64MIN && want <= I64MAX);   // "the correct result fits in a int64_t"
+    const FeeFrac ff{fee, size};
+    const int64_t q = EVAL(ff, at);
+    verif_observe((uint64_t)q);
+    VASSERT(q == FeeFrac::Div(n, size, RD), "EvaluateFee outside the fast range is Div(Mul(fee, at_size), size, direction)");
+    VWITNESS(fee < 0 && q < -1, "negative fee");
+    VWITNESS(fee > 0 && at > size, "extrapolation beyond the chunk size");
+    VWITNESS(n > (i128)UINT64_MAX, "product above 2^64");
+    VREACH("end");
+}
+
+// (F) fast path class (0 <= fee < 2^33), every size > 0, every at_size >= 0, 128-bit oracle
+extern "C" void h_evalfee_fast()
+{
+    const int64_t fee = (int64_t)(nondet_u64() & 0x1ffffffffULL);
+    const int32_t size = sym_nonneg31(), at = sym_nonneg31();
+    VASSUME(size > 0);
+    const FeeFrac ff{fee, size};
+    const int64_t q = EVAL(ff, at);
+    verif_observe((uint64_t)q);
+    const u128 N = (u128)(uint64_t)fee * (u128)(uint64_t)at;
+    VASSERT(q >= 0, "non-negative fee evaluates to non-negative fee");
+    const u128 P = (u128)(uint64_t)q * (u128)(uint64_t)size;
+#ifdef ROUND_UP
+    VASSERT(P >= N && P - N < (uint32_t)size, "EvaluateFeeUp is exactly ceil(fee*at_size/size)");
 #else
-    const int32_t size = nondet_i32();
-    const CFeeRate rate{fee, size};
+    VASSERT(P <= N && N - P < (uint32_t)size, "EvaluateFeeDown is exactly floor(fee*at_size/size)");
 #endif
-    const i128 n = (i128)fee * vb;
-    if (size > 0) VASSUME(n >= I64MIN * size - (size - 1) && n <= I64MAX * size);
-    const CAmount got = rate.GetFee(vb);
-    verif_observe((uint64_t)got);
-    if (size <= 0) {
-        VASSERT(got == 0, "a fee rate constructed with non-positive size is the zero rate");
-    } else if (fee >= 0) {
-        VASSERT(is_rounded_quotient(n, size, false, got), "non-negative rate: fee is rate*vbytes rounded up to the next satoshi");
-        VASSERT(got >= 0, "non-negative rate gives non-negative fee");
-    } else {
-        const bool ceil_is_zero = (-(i128)size < n && n <= 0);
-        if (ceil_is_zero && vb != 0) VASSERT(got == -1, "negative rate never rounds a non-empty size to zero fee: -1");
-        else VASSERT(is_rounded_quotient(n, size, false, got), "negative rate: rounded towards positive infinity");
-    }
-    VWITNESS(size > 0 && fee > 0 && got * (i128)size != n, "inexact positive fee rounded up");
-    VWITNESS(size > 0 && fee < 0 && got == -1 && n > -(i128)size, "negative rate -1 rule reachable");
-    VWITNESS(size > 0 && fee < 0 && got < -1, "negative fee below -1");
+    VWITNESS(at > size && P != N, "extrapolation beyond the chunk size, inexact");
+    VWITNESS(at <= size && P != N && at > 0, "interpolation inside the chunk, inexact");
+    VWITNESS(N > (u128)INT64_MAX, "fast path product above 2^63 (needs the unsigned 64-bit product)");
     VREACH("end");
 }
